@@ -1,4 +1,3 @@
-import VelaVerif.Gen.Mlw
 /-!
 # Reference decoder of the MLW weight stream (transcription of `ethosu/mlw_codec/mlw_decode.c`)
 
@@ -13,7 +12,15 @@ construction and is *reported* as `DecErr.underrun`, where the C code prints and
 (`Props/C07.lean` `decoder_total` proves that the fuel given by `decode` is never exhausted).
 -/
 namespace VelaVerif.Mlw
-open VelaVerif.Gen.Mlw
+
+/-! Constants of the stream format (a hardware fact; `Props/C07.lean` `codec_constants_match` ties them to
+    `mlw_common.h` of the tree under test through the regenerated `Gen/Mlw.lean`). -/
+/-- ZDIV value: no zero runs (not alternating mode) -/
+def zdivDisable : Nat := 6
+/-- ZDIV value: end of stream -/
+def zdivEos : Nat := 7
+/-- WDIV value: uncompressed weights -/
+def wdivUncompressed : Nat := 7
 
 inductive DecErr where
   /-- `bitbuf_getbit: underrun` — the C code prints and exits -/
